@@ -138,7 +138,7 @@ CHECKS = {
         text="65 API calls (every format's load/dump/write_input on corpus or generated data, failing calls, ghost atoms): each history starts from the initial interpreter state in a forked child; every step's result must equal the "
         "call alone in a fresh interpreter and the snapshot of all module-level tables and the warnings machinery must remain the initial state (1 state, self-loops only). Threads: all schedules with <=2 preemptions of pairs "
         "(thorough: 15 pairs + 2 triples) of 6 cheap calls, scheduling points at every line of the API wrapper and of catch_warnings.__enter__/__exit__; dense pass: pairs of calls into the SAME format module (5 pairs quick, 22 thorough) with a scheduling point at every line of iodata code (first 2 / 4 visits of each line per thread), all schedules with <=1 preemption; "
-        "interleaved frame iterators: every order of the 4+4 steps of two load_many iterators over 21 format pairs, plus an unrelated load_one at every position of three orders; fault history: damaged siblings (every numeric token scaled / integer incremented) of 4-12 corpus files judged identically in a fresh child process and in one that loaded the intact file first; failed-load history: after a load of every damaged sibling of 4-8 wavefunction files a menu of row-deleted / counter-decremented probe files must be judged as in a child without that load; dense pass with 2 preemptions for xyz dump/dump (thorough: 3 pairs); watch pass: module tables fingerprinted at the first visit of every line of every pool call.",
+        "interleaved frame iterators: every order of the 4+4 steps of two load_many iterators over 21 format pairs, plus an unrelated load_one at every position of three orders; fault history: damaged siblings (every numeric token scaled / integer incremented) of 4-12 corpus files judged identically in a fresh child process and in one that loaded the intact file first; failed-load history: after a load of every damaged sibling of 4-8 wavefunction files a menu of row-deleted / counter-decremented probe files must be judged as in a child without that load; same argument object written three times in a row (optionally another format in between) against a fresh equal object; dense pass with 2 preemptions for xyz dump/dump (thorough: 3 pairs); watch pass: module tables fingerprinted at the first visit of every line of every pool call.",
         note="thread results compared with the same calls run alone; harness records warnings through one process-wide hook (no catch_warnings in threads); executions capped at 3000/60000 per group (cap recorded)",
         design="DESIGN.md §2 C16",
     ),
